@@ -1,4 +1,5 @@
 import OnetVerif.Model.C09
+import OnetVerif.Proofs.C09Pause
 import OnetVerif.Shapes
 /-! Property C09 — peer failures are contained, reported to senders, and recoverable.
 Property theorems (`c09_…`), the lemmas they need, witnesses and non-vacuity examples. -/
@@ -1926,6 +1927,33 @@ example :
     let o := recvLoop [{ r := .msg 1 }, { paused := true, r := .err .closed }]
     o = { dispatched := [1], exit := some .paused } ∧ (endLoop s 0 o.exit).calls = [] ∧
     (endLoop s 0 o.exit).conns = [] := by decide
+
+
+/-! ### round 7 — the pause gate (`Model/C09Pause.lean`) -/
+
+/-- **nobody is stranded at the gate**: for every schedule of launches, `Pause` / `Unpause` calls, returns of
+`Receive` and wake-ups, no receive loop waits on a channel that is neither closed nor the one the next `Unpause`
+(or `Stop`) closes.  Falsified by any write of `r.paused` outside `Pause` / `Unpause` — the old second lock
+region of `handleConn` (`c09_woken_loop_must_not_reset_the_gate`). -/
+theorem c09_pause_gate_nobody_stranded (acts : List GateAct) :
+    ∀ pc ∈ (gateRun true {} acts).loops, pc.stranded (gateRun true {} acts) = false := by
+  intro pc hpc
+  have h := gate_inv_run {} gate_inv_init acts pc hpc
+  cases pc with
+  | wait ch =>
+    simp only [GatePc.stranded]
+    rcases h.1 ch rfl with hc | hp
+    · simp only [hc, Bool.not_true, Bool.false_and]
+    · simp only [hp, bne_self_eq_false, Bool.and_false]
+  | recv => rfl
+  | woken ch => rfl
+  | exited => rfl
+
+/-- non-vacuity: a state of the repaired gate in which two loops wait, one on a closed channel and one on the
+current one -/
+example :
+    (gateRun true {} [.launch, .launch, .launch, .pause, .received 0, .unpause, .pause, .received 1, .received 2, .wake 0]).loops
+      = [.exited, .wait 1, .wait 1] := by decide
 
 
 /-! ### the code regions the model stands for
